@@ -87,6 +87,8 @@ def c01_cases():
                 for dd in range(3):
                   for mm in c01_mm_values(pre, op):
                    for sl in ((1, 2, 3) if (op < 9 and OPS[op][0] == OPS[op][1]) else (0,)):
+                    if pre == 4 and sl in (2, 3):
+                        continue   # pre-state #4 stores a self-loop: not reachable when self-loops are disallowed
                     tier = "quick" if ((pre, op) in quick and c01_quick_pick(kn, pre, op, dd, mm)) else ("thorough" if c01_cost_class(kn, pre, op, dd, mm) == "cheap" else "full")
                     if tier == "thorough" and kn in ("dm", "um") and dd != (pre + op) % 3:
                         tier = "full"   # multi-edge kinds ignore the dedupe strategy: one strategy per cell in the thorough tier
@@ -328,15 +330,15 @@ def c11_cases():
 def c05_cases():
     out = []
     for n in range(0, 6):
-        out.append(("c05_rescale_n%d" % n, "c05_rescale(%d)" % n, "quick" if n in (0, 2, 3, 5) else "thorough", ["normalized", "halved"] if n > 0 else [],
+        out.append(("c05_rescale_n%d" % n, "c05_rescale(%d)" % n, "quick" if n in (0, 2, 3) else ("thorough" if n == 1 else "full"), ["normalized", "halved"] if n > 0 else [],
                     "rescale on a vector of length %d with arbitrary finite values; normalized and directed symbolic" % n))
     for dag in range(8):
         if dag & 4 and not dag & 1:
             continue
         out.append(("c05_accumulate_dag%d" % dag, "c05_accumulate(%d)" % dag, "quick", ["reached end"],
                     "accumulate_betweenness on the shortest-path DAG #%d over 3 nodes (source 0), arbitrary finite previous betweenness vector" % dag))
-    dq = {0b0000111, 0b0001011, 0b0111111, 0b0000011}
-    for mask in (0b0000111, 0b0001011, 0b0111111, 0b0000011, 0b0010101, 0b0000000, 0b1000111, 0b0011011):
+    dq = {0b0000111, 0b0001011, 0b0001111, 0b0000011}
+    for mask in (0b0000111, 0b0001011, 0b0001111, 0b0000011, 0b0010101, 0b0000000, 0b1000111, 0b0011011):
         out.append(("c05_pub_d_m%03d" % mask, "c05_public_unweighted(true, %d)" % mask, "quick" if mask in dq else "thorough", ["normalized", "raw"],
                     "directed topology mask %s: bfs stage (S, P, sigma) and betweenness_centrality(hop counts) vs the definition; normalized symbolic" % format(mask, "07b")))
     for mask in range(16):
@@ -351,7 +353,7 @@ def c06_cases():
             out.append(("c06_formula_n%d_r%d" % (n, r), "c06_formula(%d, %d)" % (n, r), "quick" if (n, r) in ((1, 1), (2, 2), (3, 2), (4, 3), (4, 1)) else "thorough", ["wf_improved", "plain"],
                         "get_node_centrality for n = %d nodes of which r = %d reach the node; integer distances 1..3 and the WF flag symbolic" % (n, r)))
     dq = {0b0000111, 0b0001011, 0b0000011}
-    for mask in (0b0000111, 0b0001011, 0b0111111, 0b0000011, 0b0010101, 0b0000000, 0b1000111):
+    for mask in (0b0000111, 0b0001011, 0b0001111, 0b0000011, 0b0010101, 0b0000000, 0b1000111):
         # directed: closeness reverses the graph first (new_from_nodes_and_edges with 2-3 edges): measured > 25 min
         out.append(("c06_pub_d_m%03d" % mask, "c06_public_unweighted(true, %d)" % mask, "full" if bin(mask).count("1") >= 2 else ("quick" if mask in (0b0000001, 0b0000000) else "thorough"), ["wf_improved", "plain"],
                     "directed topology mask %s: BFS distances and closeness_centrality(hop counts, incoming distance) vs the definition; wf_improved symbolic" % format(mask, "07b")))
@@ -383,7 +385,7 @@ def c20_cases():
                         pick = (s, gi) in quick and ((kn == "usl" and gi in (0, 1, 2, 6)) or (kn == "dsl" and gi in (3, 4, 5)) or (kn == "uml" and gi == 7 and s == 4) or (kn == "dsn" and s in (0, 1) and gi in (2, 3)))
                         # measured > 25 min: single_source on graphs with an edge (shape 5/6), undirected cluster functions on the triangle
                         heavy = (gi == 5 and s in (5, 6)) or (gi in (0, 1) and s == 6 and not d)
-                        tier = "quick" if pick else ("full" if heavy else "thorough")
+                        tier = "full" if heavy else ("quick" if pick else "thorough")
                         out.append(("c20_%s_s%d_%s" % (kn, s, gname), "c20_harness!(c20_%s_s%d_%s, %s, %s, %s, %d, %d);" % (kn, s, gname, B[d], B[m], B[l], s, gi), tier, ["reached end"],
                                     "kind=%s degenerate shape #%d: %s functions return a value or an Error (no panic / overflow)" % (kn, s, gname)))
                 # weighted single_source with a tie and (shape 6 on self-loop kinds) a zero-weight self-loop; options symbolic
